@@ -664,6 +664,66 @@ def r08_9(ctx, rep):
         raise MechanismMissing(R, "the dispatch loop over a component's modification arguments was not found in build_instance_tree")
 
 
+@SPEC.rule(
+    "R08.10",
+    "what is collected for one element is not handed to the next: every ClassModification that build_instance_tree fills inside a loop "
+    "(`<m>.arguments.append/extend`) is created inside that loop's body — an accumulator created once in front of the loop over the local "
+    "classes still holds `Voltage(nominal = 1000)` when `Current` is instantiated",
+)
+def r08_10(ctx, rep):
+    R = "R08.10"
+    fn = ctx.func(TREE, "build_instance_tree", R)
+    site = TREE + ":build_instance_tree"
+    fresh = {}
+    for st in walk_local(fn):
+        if isinstance(st, ast.Assign) and isinstance(st.targets[0], ast.Name) and isinstance(st.value, ast.Call) and (call_name(st.value) or "").endswith("ClassModification") \
+                and not st.value.args:
+            fresh.setdefault(st.targets[0].id, []).append(st)
+    n = 0
+    for lp in walk_local(fn):
+        if not isinstance(lp, ast.For):
+            continue
+        inside = {id(x) for b in lp.body for x in ast.walk(b)}
+        filled = {c.func.value.value.id for b in lp.body for c in calls(b) if isinstance(c.func, ast.Attribute) and c.func.attr in ("append", "extend")
+                  and isinstance(c.func.value, ast.Attribute) and c.func.value.attr == "arguments" and isinstance(c.func.value.value, ast.Name)}
+        for v in sorted(filled & set(fresh)):
+            # only the outermost loop that fills v matters: an inner loop fills what its enclosing iteration created
+            outer_fills = [o for o in walk_local(fn) if isinstance(o, ast.For) and o is not lp and id(lp) in {id(x) for b in o.body for x in ast.walk(b)}
+                           and any(id(d) in {id(x) for b in o.body for x in ast.walk(b)} for d in fresh[v])]
+            if outer_fills:
+                continue
+            n += 1
+            ok = all(id(d) in inside for d in fresh[v])
+            rep.ob(R, site, "`%s` filled in `for %s in ...` is created per iteration" % (v, norm(lp.target)[:30]), ok,
+                   "`%s = ast.ClassModification()` (line %d) is outside the loop that fills it: the arguments gathered for one element are "
+                   "still in it when the next element is handled" % (v, fresh[v][0].lineno))
+    if n < 2:
+        raise MechanismMissing(R, "fewer than 2 per-element modification accumulators found in build_instance_tree")
+
+
+@SPEC.rule(
+    "R08.11",
+    "every symbol's own expressions are resolved at its own level: each iteration of the loop of flatten_symbols that rewrites the references "
+    "inside the symbol definitions passes flatten_component_refs — a symbol skipped because a modification from an enclosing scope is still "
+    "pending has `start = k` resolved one level too high (to the enclosing class's k)",
+)
+def r08_11(ctx, rep):
+    from ..cfg import CFG, iteration_skips
+    R = "R08.11"
+    fn = ctx.func(TREE, "flatten_symbols", R)
+    site = TREE + ":flatten_symbols"
+    cfg = CFG(fn, R)
+    loops = [lp for lp in walk_local(fn) if isinstance(lp, ast.For) and any(is_name(c.func, "flatten_component_refs") for b in lp.body for c in calls(b))
+             and not any(isinstance(x, ast.For) and any(is_name(c.func, "flatten_component_refs") for b in x.body for c in calls(b)) for b in lp.body for x in ast.walk(b))]
+    if not loops:
+        raise MechanismMissing(R, "the loop of flatten_symbols that calls flatten_component_refs was not found")
+    for lp in loops:
+        w = iteration_skips(cfg, lp, lambda x: x.kind == "stmt" and any(is_name(c.func, "flatten_component_refs") for c in calls(x.ast)))
+        rep.ob(R, site, "every symbol of `for %s in %s` has its references resolved" % (norm(lp.target)[:30], norm(lp.iter)[:40]), w is None,
+               "an iteration can end without flatten_component_refs: the names in that symbol's declaration stay relative to its own class and are "
+               "bound, later, in an enclosing one", path=cfg.describe(w) if w else "")
+
+
 # -- seeded variants ---------------------------------------------------------
 from ._mut import delete_stmt_where, replace_in_func  # noqa: E402
 
